@@ -164,6 +164,14 @@ class C02(Spec):
                   timeout=900, correspondence="Children().Harvest verdicts == Listing.reply_entry (forged embedded entries)")
         b.parallel = False
         runner.run_batches(self, scratch, binary, batches, report)
+        # the TARGET of an activity (pub.getPostOrActor): embedded directly or inside an inline Create wrapper (Lemmy), whatever ids
+        # the wrapper and the embedded object claim, the object shown must come from the host its id names
+        base = netgen.pick_port_base(rng)
+        tcases = [self.target_world(rng, base).case() for _ in range(60 if tier == "quick" else 3000)]
+        tb = Batch("c02-targets", tcases, config="[network]\ntimeout_seconds = 2\n", env={"VERIF_SIM_PORT_BASE": str(base), "VERIF_CASE_TIMEOUT": "30"},
+                   timeout=900, correspondence="pub.New on an activity: its target == Open.opened_summary / activity_target")
+        tb.parallel = False
+        runner.run_batches(self, scratch, binary, [tb], report)
         saved = self.oracle_filter
         self.oracle_filter = {"results_equal_model", "well_formed_result"}     # entries are fetched concurrently: request ORDER is C08's
         try:
@@ -171,9 +179,72 @@ class C02(Spec):
         finally:
             self.oracle_filter = saved
 
+    def target_world(self, rng, base):
+        """host A serves an activity; its object names (or claims to be) something on host B"""
+        w = netgen.World(base, 128)
+        ha, hb = rng.sample(range(3), 2)
+        n = rng.randrange(1000)
+
+        def note(url, server, **kw):
+            d = {"type": rng.choice(["Note", "Article", "Page"]), "id": url, "name": "served-by " + w.host(server), "content": "words"}
+            d.update(kw)
+            return d
+        nb = w.url(hb, "/notes/%d" % n)
+        na = w.url(ha, "/notes/%d" % n)
+        pb = w.url(hb, "/users/%d" % n)
+        served_b = rng.random() < 0.8
+        if served_b:
+            w.serve(nb, netgen.ok_json(note(nb, hb)))
+        w.serve(pb, netgen.ok_json({"type": "Person", "id": pb, "name": "served-by " + w.host(hb), "preferredUsername": "p"}))
+        w.serve(na, netgen.ok_json(note(na, ha)))
+        forged = note(nb, ha, x=1)                       # a full object under B's id, in A's document
+        forged_actor = {"type": "Person", "id": pb, "name": "served-by " + w.host(ha), "preferredUsername": "p", "x": 1}
+        wrap_id = rng.choice([w.url(hb, "/creates/%d" % n), w.url(ha, "/creates/%d" % n), None, nb])
+        kind = rng.choice(["url", "forged", "forged-actor", "create-forged", "create-forged", "create-forged-actor", "create-url", "create-stub", "create-empty",
+                           "no-type", "honest", "create-honest", "create-create", "idless"])
+        if kind == "url":
+            obj = nb
+        elif kind == "forged":
+            obj = forged
+        elif kind == "forged-actor":
+            obj = forged_actor
+        elif kind in ("create-forged", "create-forged-actor", "create-url", "create-stub", "create-honest", "create-create"):
+            inner = {"create-forged": forged, "create-forged-actor": forged_actor, "create-url": nb, "create-stub": {"id": nb},
+                     "create-honest": note(na, ha, x=1),
+                     "create-create": {"type": "Create", "id": w.url(hb, "/creates/inner%d" % n), "object": forged}}[kind]
+            obj = {"type": "Create", "object": inner, "published": "2020-01-01T00:00:00Z"}
+            if wrap_id is not None:
+                obj["id"] = wrap_id
+        elif kind == "create-empty":
+            obj = {"type": "Create", "id": wrap_id or nb}
+        elif kind == "no-type":
+            obj = {"id": nb, "name": "served-by " + w.host(ha), "content": "x", "y": 2}
+        elif kind == "honest":
+            obj = note(na, ha, x=1)
+        else:
+            obj = {"type": "Note", "name": "served-by " + w.host(ha), "content": "no id at all", "x": 1}
+        ua = w.url(ha, "/activities/%d" % n)
+        act = {"type": rng.choice(["Announce", "Announce", "Like", "Dislike", "Create"]), "id": ua, "object": obj}
+        w.register_strings(act)
+        w.serve(ua, netgen.ok_json(act))
+        w.user_input(ua.encode())
+        w.meta["lies"] = kind not in ("url", "honest", "create-honest", "create-url", "idless")
+        w.meta["target_kind"] = kind
+        return w
+
     def post_check(self, case, res):
         """independent provenance oracle on the implementation's results"""
         t = res["impl"]
+        if "target_kind" in case.meta:
+            if not t or t[0] != 0:
+                return None
+            val, _ = decode_jv(t, 2)
+            parts = val.split("|") if isinstance(val, str) else []
+            if len(parts) == 3 and parts[1]:
+                host = parts[1].split("/")[2] if parts[1].count("/") >= 2 else ""
+                if parts[2] != "served-by " + host:
+                    return "the target of the activity is shown under the id %s but its content was %s" % (parts[1], parts[2] or "unnamed")
+            return None
         if "forged_pos" in case.meta:
             if not t or t[0] != 0:
                 return "the listing could not be built (result class %s)" % (t[0] if t else None)
